@@ -51,17 +51,34 @@ class Sched(object):
             self.trace.append((name, tag))
             self._park(name, tag)
 
-    def run(self, max_steps=20000, wall_timeout=20.0):
+    def run(self, max_steps=20000, wall_timeout=20.0, quiet=0.5):
+        """quiet: a running thread that reaches no yield point for `quiet` wall seconds is taken to be blocked on a
+        lock the scheduler does not know; it is set aside (it parks by itself when it gets going again)."""
         steps = 0
+        self.blocked_outside = set()
         with self.cv:
             while len(self.done) < len(self.threads):
-                while self.running is not None or len(self.parked) + len(self.done) < len(self.threads):
-                    if not self.cv.wait(timeout=wall_timeout):
-                        return 'WATCHDOG'
+                waited = 0.0
+                while self.running is not None or len(self.parked) + len(self.done) + len(self.blocked_outside - set(self.parked) - self.done) < len(self.threads):
+                    if not self.cv.wait(timeout=quiet):
+                        waited += quiet
+                        if self.running is not None and self.running not in self.parked:
+                            self.blocked_outside.add(self.running)      # presumably blocked on an unknown lock
+                            self.unknown_lock_blocks = getattr(self, 'unknown_lock_blocks', 0) + 1
+                            self.running = None
+                            continue
+                        if waited >= wall_timeout:
+                            return 'WATCHDOG'
+                self.blocked_outside -= set(self.parked) | self.done
                 if len(self.done) == len(self.threads):
                     break
                 cands = sorted(n for n, tag in self.parked.items() if not (tag[0] == 'lockwait' and tag[1] == self.lock_epoch))
                 if not cands:
+                    if self.blocked_outside - self.done:
+                        # everybody we can schedule is waiting; give the externally blocked threads time to show up
+                        if not self.cv.wait(timeout=quiet * 4) and not (set(self.parked) & self.blocked_outside):
+                            return 'DEADLOCK'
+                        continue
                     return 'DEADLOCK'
                 if getattr(self.chooser, 'wants_names', False):
                     i = self.chooser(len(self.choices), cands)
